@@ -921,6 +921,16 @@ fn cache(sink: &mut Sink, o: &Opts) {
                         copies.push(o.sink.data);
                     }
                 }
+                // sinks that take part of a buffer and then report a failure of some kind (WouldBlock, TimedOut, ...)
+                // or an interruption before accepting the rest: whatever write reports as success is a copy
+                for at in [0usize, 1, 2, 3, 4, 6, 9] {
+                    for kind in [-1i64, -3, -4, -5] {
+                        let o = crate::sink::run(src, [vec![1 << 30; at], vec![5, kind]].concat(), 64);
+                        if o.ok {
+                            copies.push(o.sink.data);
+                        }
+                    }
+                }
                 {
                     struct Boom(usize);
                     impl std::io::Write for Boom {
